@@ -234,6 +234,16 @@ def run_iequiv(case, drv):
         return fail(f"is_iequivalent raised {type(e).__name__}: {e}")
     if r1 != m or r2 != m:
         return fail(f"is_iequivalent({case['g']}, {case['h']}) = {r1}/{r2}; same skeleton and v-structures: {m}", n=n)
+    # get_immoralities: the unordered parent pairs of the model's v-structures (a -> c <- b, a and b not adjacent)
+    for d, edges in ((g, case["g"]), (h, case["h"])):
+        vs = drv.call("vstructures", g={"nodes": list(range(n)), "edges": edges})
+        want = {tuple(sorted((names[a], names[b]))) for a, _, b in vs}
+        try:
+            got = {tuple(sorted(x)) for x in d.get_immoralities()}
+        except Exception as e:
+            return fail(f"get_immoralities raised {type(e).__name__}: {e}", n=n)
+        if got != want:
+            return fail(f"get_immoralities({edges}) = {sorted(got)}, unshielded colliders of the graph: {sorted(want)}", n=n)
     return ok(nontrivial=bool(case["g"]) and bool(case["h"]), n=n, equiv=m)
 
 
